@@ -534,13 +534,27 @@ def _run_sched(case, res):
     old_prange, old_np = I.prange, I.np
     norders = 0
     try:
+        # how many iterations does the parallel loop have? (learned from the code, not assumed)
+        seen_n = []
+
+        def probe_prange(n):
+            seen_n.append(int(n))
+            return range(n)
+
+        I.prange = probe_prange
+        try:
+            body(menu[0], ez, n_edge)
+        finally:
+            I.prange = old_prange
+        n_iter = seen_n[0] if seen_n else n_edge
         for lat in menu:
             ref = None
-            for oname, order in _orders(n_edge, case["tier"]):
+            for oname, order in _orders(n_iter, case["tier"]):
                 log = []
 
                 def fake_prange(n, order=order):
-                    assert n == len(order)
+                    if n != len(order):
+                        raise RuntimeError("prange(%d) but %d iterations were planned" % (n, len(order)))
                     for i in order:
                         _CUR[0] = i
                         yield i
@@ -556,10 +570,14 @@ def _run_sched(case, res):
                 out = np.asarray(out).ravel().tolist()
                 norders += 1
                 res["evaluations"] += 1
-                res["transitions"] += n_edge
+                res["transitions"] += n_iter
                 focus = dict(case, lat=lat, order=list(order))
                 if ref is None:
                     ref = out
+                    zc = np.sin(np.deg2rad(lat))
+                    truth = [int(i) for i in range(n_edge) if (ez[i, 0] - zc) * (ez[i, 1] - zc) < 0.0]
+                    if out != truth:
+                        V.append({"oracle": "sched", "sig": "c09:sched:body-misses-edges", "msg": "mesh %s lat %g: the loop body reports edges %s, edges whose end nodes lie on opposite sides: %s" % (case["mesh"], lat, out, truth), "focus": focus})
                     # compiled kernel agrees with its Python body
                     comp = np.asarray(I.fast_constant_lat_intersections(lat, ez, n_edge)).ravel().tolist()
                     if comp != out:
